@@ -113,7 +113,7 @@ class Inconclusive(Exception):
     pass
 
 
-def record(vh, rec, seed, wd, steps=0):
+def _record_once(vh, rec, seed, wd, steps=0):
     d = os.path.join(wd, "rec%d" % rec)
     live, base, tmp = os.path.join(d, "live"), os.path.join(d, "base"), os.path.join(d, "tmp")
     os.makedirs(tmp)
@@ -133,6 +133,21 @@ def record(vh, rec, seed, wd, steps=0):
     r = load_recording(rec, d, live)
     r.san = driver._parse_san_logs(d)
     return r
+
+
+def record(vh, rec, seed, wd, steps=0):
+    """A syscall log that the replayer cannot interpret unambiguously (rare interleavings of strace's unfinished/resumed lines) is
+    re-recorded (the recording is cheap) before the run is declared inconclusive."""
+    last = None
+    for attempt in range(3):
+        try:
+            return _record_once(vh, rec, seed, wd, steps)
+        except Inconclusive as e:
+            last = e
+            if "unusable" not in str(e):
+                raise
+            shutil.rmtree(os.path.join(wd, "rec%d" % rec), ignore_errors=True)
+    raise last
 
 
 def load_recording(rec, d, root):
